@@ -36,7 +36,7 @@ ASSUMPTIONS = [
     "generic for a specialised annotation, non-set Set views, omitted argument where the annotation admits Missing/Any, unknown keyword arguments",
     "annotation forms outside the vocabulary (list[...], dict[...], bare Sequence/tuple, recursive aliases) are not generated",
 ]
-MINIMUMS = {"monitor:accepts-conforming": 15000, "monitor:rejects-violating": 20000, "monitor:stored-faithfully": 15000, "breakers_below_top": 3000, "set:terms": 400, "monitor:default-validated": 500, "monitor:required-argument": 300, "classes_with_two_generic_bases": 200, "values_checked_through_typevar": 1000, "values_checked_through_typevar-subclass": 1000, "classes_with_implementation_like_attribute_names": 100}
+MINIMUMS = {"monitor:accepts-conforming": 15000, "monitor:rejects-violating": 20000, "monitor:stored-faithfully": 15000, "breakers_below_top": 3000, "set:terms": 400, "monitor:default-validated": 500, "monitor:required-argument": 300, "classes_with_two_generic_bases": 200, "values_checked_through_typevar": 1000, "values_checked_through_typevar-subclass": 1000, "values_checked_through_typevar-bound": 1000, "classes_with_implementation_like_attribute_names": 100}
 JOBS = {"quick": 4, "thorough": 16}
 LEVEL_TEXT = (
     "All annotation terms up to depth 1 (413 terms, quick) / depth 2 (4.6k terms, thorough) and seeded random terms up to depth 4 - covering None, bool, int, float, str, bytes, UUID, "
@@ -91,7 +91,7 @@ class Runner:
         self.variant = variant
         self.vflags: dict[str, Any] = {}
         name = f"K{self.n}"
-        lines = [f"class {name}[T](State):" if variant in ("generic", "typevar", "typevar-subclass", "typevar-child") else f"class {name}(State):"]
+        lines = [f"class {name}[T](State):" if variant in ("generic", "typevar", "typevar-subclass", "typevar-child", "typevar-bound") else f"class {name}(State):"]
         if variant == "generic":
             lines.append("    hv_t: T")
         argument = None
@@ -103,6 +103,8 @@ class Runner:
             rng.shuffle(order)
             for ai in order:
                 cands = [(p, t) for p, t in A.positions(attrs[ai][1]) if not A.mentions(t, "self")]
+                if variant == "typevar-bound":
+                    cands = [(p, t) for p, t in cands if t != ("none",)]  # `T: None` is no bound at all
                 if force is not None:
                     ai = force[0]
                     cands = [(p, t) for p, t in cands if p == force[1]]
@@ -129,6 +131,11 @@ class Runner:
                 lines.append(f"    {an}: {A.render(term)} = _dflt_{self.n}_{an}")
         if variant == "subclass":
             lines += [f"class {name}S({name}):", "    pass"]
+        if variant == "typevar-bound":
+            # the subterm becomes the BOUND of the type variable and the class is used without any type argument: an unspecialised
+            # variable stands for its bound, wherever it occurs in the annotation - so the class means what the plain class means
+            lines[0] = f"class {name}[T: {A.render(argument)}](State):"
+            lines += [f"{name}P = {name}"]
         if variant == "typevar":
             lines += [f"{name}P = {name}[{A.render(argument)}]"]
         if variant == "typevar-subclass":
@@ -305,7 +312,7 @@ class Runner:
                     mode = "none"
             attrs.append((names[i], term, default))
             info.append(mode)
-        variant = rng.choice(["plain", "plain", "subclass", "generic", "typevar", "typevar-subclass", "typevar-child"]) if fixed is None else fixed[1]
+        variant = rng.choice(["plain", "plain", "subclass", "generic", "typevar", "typevar-subclass", "typevar-child", "typevar-bound"]) if fixed is None else fixed[1]
         made = self.make_class(attrs, variant, fixed[2] if fixed is not None else None)
         if made is None:
             return
@@ -379,14 +386,16 @@ def run(R: Recorder, tier: str, seed: int, shard: int, nshards: int) -> None:
         if i % nshards == shard:
             run.exercise_term(term, rng, nconf=8 if tier == "quick" else 4, full_battery=(tier == "quick" or i % 4 == 0))
             # the same term once more with one of its subterms passed in as a type argument (directly / through a subclass of the specialisation)
-            run.exercise_term(term, rng, nconf=2, full_battery=False, variant=("typevar", "typevar-subclass", "typevar-child")[i % 3])
+            run.exercise_term(term, rng, nconf=2, full_battery=False, variant=("typevar", "typevar-subclass", "typevar-child", "typevar-bound")[i % 4])
     if shard == 0:
         # fixed probes: type arguments substituted below the top level of generic State / alias arguments, two-argument generic
         # states, subclasses of specialisations - and the one spelling that is a known finding (type argument None)
         S, P = ("prim", "str"), ("prim", "int")
         for term, pos in ((("generic", "Pair2", [("seq", ("none",)), S]), (0, 0)), (("generic", "Pair2", [("seq", P), S]), (0, 0)), (("generic", "Box", [("set", P)]), (0, 0)),
                           (("palias", "MaybeSeq", [("frozenset", P)]), (0, 0)), (("generic", "Pair2", [P, ("generic", "Box", [P])]), (0,)), (("seq", ("palias", "MaybeSeq", [("generic", "Box", [("none",)])])), (0, 0, 0))):
-            for variant in ("typevar", "typevar-subclass", "typevar-child"):
+            for variant in ("typevar", "typevar-subclass", "typevar-child", "typevar-bound"):
+                if variant == "typevar-bound" and A.mentions(term, "none"):
+                    continue
                 run.exercise_term(term, rng, nconf=4, full_battery=False, variant=variant, force=(0, pos))
                 run.exercise_defaults(rng, fixed=([term], variant, (0, pos)))
     rngt = random.Random(f"C05/{seed}")
@@ -394,7 +403,7 @@ def run(R: Recorder, tier: str, seed: int, shard: int, nshards: int) -> None:
         term = A.gen_term(rngt, rngt.randint(2, 4))
         if i % nshards != shard:
             continue
-        run.exercise_term(term, rng, nconf=3, full_battery=False, variant=("plain", "typevar", "typevar-subclass", "typevar-child")[i % 4])
+        run.exercise_term(term, rng, nconf=3, full_battery=False, variant=("plain", "typevar", "typevar-subclass", "typevar-child", "typevar-bound")[i % 5])
         if i % 3 == 0:
             run.exercise_two_bases(rng)
         run.exercise_defaults(rng)
